@@ -836,8 +836,8 @@ theorem fixHeader_isJoin (labels : List String) (h : List HField) (f : HField) (
 
 /-! ## lazy evaluation agrees with the total one where no reference is open -/
 
-theorem evalExprE_pure (lw : Nat) (r : Row) (e : Expr) (h : exprPure e = true) :
-    evalExprE lw r e = .ok (evalExpr lw r e) := by
+theorem evalExprE_pure (subs : SubEnv) (lw : Nat) (r : Row) (e : Expr) (h : exprPure e = true) :
+    evalExprE subs lw r e = .ok (evalExpr lw r e) := by
   cases e <;> simp_all [exprPure, evalExprE]
 
 theorem evalBetween_low_false (neg : Bool) (v lo hi hi' : Profile) (h : opGe v lo = .F) :
@@ -845,12 +845,12 @@ theorem evalBetween_low_false (neg : Bool) (v lo hi hi' : Profile) (h : opGe v l
   unfold evalBetween
   simp [h]
 
-theorem evalCondE_pure (lw : Nat) (r : Row) (c : CondE) (h : condPure c = true) :
-    evalCondE lw r c = .ok (evalCond lw r c) := by
+theorem evalCondE_pure (subs : SubEnv) (lw : Nat) (r : Row) (c : CondE) (h : condPure c = true) :
+    evalCondE subs lw r c = .ok (evalCond lw r c) := by
   induction c with
   | cmp op a b =>
     simp only [condPure, Bool.and_eq_true] at h
-    simp only [evalCondE, evalCond, evalExprE_pure lw r a h.1, evalExprE_pure lw r b h.2]
+    simp only [evalCondE, evalCond, evalExprE_pure subs lw r a h.1, evalExprE_pure subs lw r b h.2]
     by_cases hn : (evalExpr lw r a).isNull = true
     · simp [hn, evalComparison]
     · simp [hn]
@@ -871,10 +871,10 @@ theorem evalCondE_pure (lw : Nat) (r : Row) (c : CondE) (h : condPure c = true) 
     simp only [evalCondE, evalCond, iha h]
   | isNull neg a =>
     simp only [condPure] at h
-    simp only [evalCondE, evalCond, evalExprE_pure lw r a h]
+    simp only [evalCondE, evalCond, evalExprE_pure subs lw r a h]
   | between neg a lo hi =>
     simp only [condPure, Bool.and_eq_true] at h
-    simp only [evalCondE, evalCond, evalExprE_pure lw r a h.1.1, evalExprE_pure lw r lo h.1.2, evalExprE_pure lw r hi h.2]
+    simp only [evalCondE, evalCond, evalExprE_pure subs lw r a h.1.1, evalExprE_pure subs lw r lo h.1.2, evalExprE_pure subs lw r hi h.2]
     by_cases hn : (evalExpr lw r a).isNull = true
     · simp [hn, evalBetween]
     · simp only [hn, Bool.false_eq_true, if_false]
@@ -884,9 +884,89 @@ theorem evalCondE_pure (lw : Nat) (r : Row) (c : CondE) (h : condPure c = true) 
       · simp [hl]
   | inList neg a l =>
     simp only [condPure] at h
-    simp only [evalCondE, evalCond, evalExprE_pure lw r a h]
+    simp only [evalCondE, evalCond, evalExprE_pure subs lw r a h]
   | truth a =>
     simp only [condPure] at h
-    simp only [evalCondE, evalCond, evalExprE_pure lw r a h]
+    simp only [evalCondE, evalCond, evalExprE_pure subs lw r a h]
+  | «exists» s => simp [condPure] at h
+  | inSub neg a s => simp [condPure] at h
+  | anySub op a s => simp [condPure] at h
+  | allSub op a s => simp [condPure] at h
+
+/-! ## de-duplication: more absorption -/
+
+theorem dedupAux_idem_sub {κ : Type} [DecidableEq κ] (key : Row → κ) (s t : List κ) (X : List Row)
+    (hts : ∀ k, k ∈ t → k ∈ s) : dedupAux key s (dedupAux key t X) = dedupAux key s X := by
+  induction X generalizing s t with
+  | nil => rfl
+  | cons x xs ih =>
+    by_cases ht : key x ∈ t
+    · have hs := hts _ ht
+      simp only [dedupAux, ht, hs, if_true]
+      exact ih s t hts
+    · by_cases hs : key x ∈ s
+      · simp only [dedupAux, ht, hs, if_true, if_false]
+        exact ih s (key x :: t) (fun k hk => by
+          rcases List.mem_cons.mp hk with rfl | h
+          · exact hs
+          · exact hts k h)
+      · simp only [dedupAux, ht, hs, if_false]
+        rw [ih (key x :: s) (key x :: t) (fun k hk => by
+          rcases List.mem_cons.mp hk with rfl | h
+          · exact List.mem_cons_self ..
+          · exact List.mem_cons_of_mem _ (hts k h))]
+
+theorem dedupAux_absorb_right {κ : Type} [DecidableEq κ] (key : Row → κ) (s : List κ) (A X : List Row) :
+    dedupAux key s (A ++ dedupAux key [] X) = dedupAux key s (A ++ X) := by
+  induction A generalizing s with
+  | nil => exact dedupAux_idem_sub key s [] X (fun _ h => by cases h)
+  | cons a as ih =>
+    by_cases h : key a ∈ s
+    · simp only [List.cons_append, dedupAux, h, if_true]; exact ih s
+    · simp only [List.cons_append, dedupAux, h, if_false]; rw [ih]
+
+theorem dedupBy_absorb_right {κ : Type} [DecidableEq κ] (key : Row → κ) (A X : List Row) :
+    dedupBy key (A ++ dedupBy key X) = dedupBy key (A ++ X) := dedupAux_absorb_right key [] A X
+
+theorem keyIn_filter {κ : Type} [DecidableEq κ] (key : Row → κ) (B C : List Row) (r : Row) :
+    keyIn key (B.filter (fun b => keyIn key C b)) r = (keyIn key B r && keyIn key C r) := by
+  unfold keyIn
+  rw [Bool.eq_iff_iff]
+  simp only [List.contains_iff_mem, List.mem_map, List.mem_filter, Bool.and_eq_true]
+  constructor
+  · rintro ⟨b, ⟨hb, c, hc, hcb⟩, hk⟩
+    exact ⟨⟨b, hb, hk⟩, ⟨c, hc, by rw [hcb, hk]⟩⟩
+  · rintro ⟨⟨b, hb, hk⟩, ⟨c, hc, hck⟩⟩
+    exact ⟨b, ⟨hb, c, hc, by rw [hck, hk]⟩, hk⟩
+
+/-! ## Kleene logic: NOT IN is the negation of IN -/
+
+theorem tern_foldl_and_not (l : List Tern) (a : Tern) :
+    (l.map Tern.not).foldl Tern.and a.not = (l.foldl Tern.or a).not := by
+  induction l generalizing a with
+  | nil => rfl
+  | cons x xs ih =>
+    simp only [List.map_cons, List.foldl_cons]
+    have : Tern.and a.not x.not = (Tern.or a x).not := by cases a <;> cases x <;> rfl
+    rw [this, ih]
+
+theorem evalComparison_ne_not (v p : Profile) : evalComparison .ne v p = (evalComparison .eq v p).not := by
+  unfold evalComparison
+  by_cases h : v.isNull = true
+  · simp [h, Tern.not]
+  · simp only [h, Bool.false_eq_true, if_false, compare, opNe, opEq]
+    cases cmp v p <;> rfl
+
+/-! ## positions in merged records -/
+
+theorem getElem?_append_nulls (l : Row) (wr j : Nat) (hj : j < wr) :
+    ((l ++ nulls wr)[l.length + j]?).getD nullP = nullP := by
+  rw [List.getElem?_append_right (by omega)]
+  simp [nulls, hj]
+
+theorem getElem?_append_right' (l r : Row) (j : Nat) : (l ++ r)[l.length + j]? = r[j]? := by
+  rw [List.getElem?_append_right (by omega)]
+  congr 1
+  omega
 
 end Csvq.Rel
